@@ -106,6 +106,11 @@ fn corpus_pipeline(dir: &Path, seed: u64) {
     }
 }
 
+fn corpus_views(dir: &Path, seed: u64) {
+    // same seeds as the pipeline target; the first byte selects the view there as well
+    corpus_pipeline(dir, seed);
+}
+
 fn corpus_small(dir: &Path, _seed: u64) {
     use crate::model::*;
     let words = [ihw(7), tdh(&TdhF { trigger_type: 1, internal: true, no_data: false, continuation: false, bc: 1, orbit: 2 }), data_word(0x20, &[0xA0, 1, 0xB0, 0, 0, 0, 0, 0, 0]), tdt(0, 0, true, false, false), ddw0(0, false, false, 0), cdw(1, 0)];
@@ -131,7 +136,10 @@ fn corpus_small(dir: &Path, _seed: u64) {
 
 pub fn fuzz_specs(id: &str) -> Vec<FuzzSpec> {
     match id {
-        "C04" => vec![FuzzSpec { target: "pipeline", secs: 420, jobs: 12, corpus: corpus_pipeline, is_mine: |t| !t.contains("C07 violation"), signature: sig_generic }],
+        "C04" => vec![
+            FuzzSpec { target: "pipeline", secs: 360, jobs: 10, corpus: corpus_pipeline, is_mine: |t| !t.contains("C07 violation"), signature: sig_generic },
+            FuzzSpec { target: "views", secs: 240, jobs: 6, corpus: corpus_views, is_mine: |_| true, signature: sig_generic },
+        ],
         "C07" => vec![FuzzSpec { target: "pipeline", secs: 300, jobs: 12, corpus: corpus_pipeline, is_mine: |t| t.contains("C07 violation"), signature: |t| {
             let i = t.find("C07 violation ").map(|i| i + 14).unwrap_or(0);
             format!("fuzz:{}", t[i..].split(':').take(3).collect::<Vec<_>>().join(":").chars().take(80).collect::<String>())
